@@ -1,7 +1,7 @@
 (* C16 — Compiled bytecode behaves like the tree-walking evaluator.
    Property theorems only; proofs are [exact <lemma of CompileProofs>]. *)
 From Coq Require Import ZArith NArith List String.
-From EvyV Require Import Base Bytecode SymTab Vm Compile CompileProofs CompileWfProofs CompileStmtProofs.
+From EvyV Require Import Base Bytecode SymTab Vm VmProofs Compile CompileProofs CompileWfProofs CompileStmtProofs CompileJumpProofs CompileHoleProofs CompileCtlProofs.
 Import ListNotations.
 Open Scope list_scope.
 
@@ -137,7 +137,75 @@ Proof.
 Qed.
 Print Assumptions C16_compile_wf_large_before_fix.
 
+(* ---------- the compiler's output is well formed: code with jumps ---------- *)
+(* Fragment pfrag: a top-level sequence of declarations `x := e` and of
+   statements of the control-flow fragment cfrag — assignments `x = e` to
+   globals, if / else-if / else chains, while, break, `for range …` over step
+   ranges and over iterables WITHOUT a loop variable, arbitrarily nested, with
+   all expressions in the expression fragment efrag (so: no declarations inside
+   blocks, no loop variables, no arrays/maps/index/slice — _partial).  For
+   every such program: if the compiler succeeds and leaves no pending break
+   (a break outside a loop, which the parser rejects), its output satisfies
+   WF — every jump operand the compiler back-patches (condition exits, end-of-if
+   jumps, loop-back jumps, breaks) lands on an instruction boundary inside the
+   program, and the stack states agree at every join (incl. the OpDrop of the
+   range loops).  No size guard: out-of-range operands and jump targets are
+   compile errors at HEAD (e351c68). *)
+Theorem C16_compile_wf_ctl_partial : forall (p : slist) (st : cstate),
+  pfrag p = true -> compile p = COk st -> cbreaks st = [] ->
+  WF {| bcode := out_code (bytecode_of st); nconsts := N.of_nat (List.length (out_consts (bytecode_of st)));
+        gcount := out_gcount (bytecode_of st); lcount := out_lcount (bytecode_of st) |}.
+Proof. exact compile_wf_ctl. Qed.
+Print Assumptions C16_compile_wf_ctl_partial.
+
+(* … hence C17's VM-safety theorem applies to everything the compiler
+   produces for the fragment: no stack underflow, no out-of-range operand, no
+   fetch off an instruction boundary, sp = LocalCount at the end. *)
+Theorem C16_compile_vm_safe_ctl_partial : forall (p : slist) (st : cstate),
+  pfrag p = true -> compile p = COk st -> cbreaks st = [] ->
+  let prog := program_of (bytecode_of st) in
+  forall s, reachable prog s ->
+    (plcount prog <= sp_of s)%N /\
+    match vm_step prog s with
+    | Running _ | Failed _ => True
+    | Halted s' => ip s' = N.of_nat (List.length (pcode prog)) /\ sp_of s' = plcount prog
+    | Crashed c => c = CType
+    end.
+Proof.
+  intros p st HF HC HB prog. apply wf_vm_safe_partial.
+  unfold prog, info_of, program_of. cbn [pcode pconsts pgcount plcount]. rewrite map_length.
+  apply (compile_wf_ctl p st HF HC HB).
+Qed.
+Print Assumptions C16_compile_vm_safe_ctl_partial.
+
 (* ---------- non-vacuity ---------- *)
+Definition ex_ctl : slist :=
+  SCons (SDecl (s_ "x") (ENum (float_of_Z 0)))
+ (SCons (SDecl (s_ "s") (EStr (s_ "ab")))
+ (SCons (SWhile (EBool true)
+          (SCons (SAssign (EVar (s_ "x")) (EBin BPlus TNum TNum (EVar (s_ "x")) (ENum (float_of_Z 1))))
+          (SCons (SIf (EBin BGt TNum TNum (EVar (s_ "x")) (ENum (float_of_Z 3))) (SCons SBreak SNil)
+                      (CCons (EBin BEq TNum TNum (EVar (s_ "x")) (ENum (float_of_Z 2)))
+                             (SCons (SForIter None TStr (EVar (s_ "s"))
+                                       (SCons (SIf (EBool false) (SCons SBreak SNil) CNil NoElse) SNil)) SNil) CNil)
+                      (Else (SCons (SForStep None ONoneE (ENum (float_of_Z 2)) ONoneE
+                                      (SCons (SAssign (EVar (s_ "x")) (EBin BPlus TNum TNum (EVar (s_ "x")) (ENum (float_of_Z 0)))) SNil)) SNil))) SNil))) SNil)).
+
+Example C16_ex_ctl_fragment :
+  pfrag ex_ctl = true /\
+  match compile ex_ctl with
+  | COk st => cbreaks st = [] /\
+      (let bc := bytecode_of st in
+       wf_check {| bcode := out_code bc; nconsts := N.of_nat (List.length (out_consts bc));
+                   gcount := out_gcount bc; lcount := out_lcount bc |} = true) /\
+      match vm_run 2000 (program_of (bytecode_of st)) (vm_init (program_of (bytecode_of st))) with
+      | FHalted s => nth_error (globals s) 0 = Some (VNum (float_of_Z 4))
+      | _ => False
+      end
+  | CErr _ => False
+  end.
+Proof. vm_compute. repeat split; reflexivity. Qed.
+
 Example C16_ex_straightline_semantics :
   let p := SCons (SDecl (s_ "x") (ENum (float_of_Z 7)))
           (SCons (SDecl (s_ "b") (EBin BLt TNum TNum (EBin BPlus TNum TNum (EVar (s_ "x")) (ENum (float_of_Z 2))) (ENum (float_of_Z 30))))
